@@ -2466,6 +2466,18 @@ class Engine:
             return res
         if isinstance(recv, SymSeqV) and isinstance(idx, IntV):
             return self.seq_index(st, recv.length, idx.t, recv.at)
+        if isinstance(recv, SymSeqV) and isinstance(idx, PySliceV) and idx.step in (None, 1) and not hasattr(recv, 'keyview'):
+            # seq[a:b] with constant bounds: python clamps the (possibly negative) bounds into [0, len]
+            L = recv.length
+
+            def bound(c, default):
+                if c is None:
+                    return default
+                x = I(c) if c >= 0 else L + c
+                return z3.If(x < 0, I(0), z3.If(x > L, L, x))
+            lo, hi = bound(idx.lo, I(0)), bound(idx.hi, L)
+            n2 = z3.If(hi - lo > 0, hi - lo, I(0))
+            return [(st, SymSeqV(z3.simplify(n2), (lambda e, recv=recv, lo=lo: recv.at(lo + e)), recv.pytype))]
         if isinstance(recv, DSTupleV) and isinstance(idx, IntV):
             return self.seq_index(st, recv.m, idx.t, recv.at)
         if isinstance(recv, ListV) and isinstance(idx, IntV):
